@@ -393,13 +393,14 @@ impl RefStore {
         let parent_header = db.get_block_header(&block.parent_hash()).expect("parent in reference store");
         let parent_ext = db.get_block_ext(&block.parent_hash()).expect("parent ext");
         let next_epoch = consensus.next_epoch_ext(&parent_header, &db.borrow_as_data_loader()).expect("epoch");
+        let is_head = next_epoch.is_head();
         let epoch = next_epoch.epoch();
         let txn = db.begin_transaction();
         txn.insert_block(block).unwrap();
         txn.attach_block(block).unwrap();
         ckb_store::attach_block_cell(&txn, block).unwrap();
         txn.insert_block_epoch_index(&block.hash(), &epoch.last_block_hash_in_previous_epoch()).unwrap();
-        if next_epoch.is_head() {
+        if is_head {
             txn.insert_epoch_ext(&epoch.last_block_hash_in_previous_epoch(), &epoch).unwrap();
         }
         let ext = ckb_types::core::BlockExt {
@@ -426,6 +427,7 @@ impl RefStore {
 
 struct Case<'a> {
     refstore: RefStore,
+    max_ts: u64,
     out: &'a mut Out,
     rng: Rng,
     node: Node,
@@ -701,6 +703,7 @@ fn run_case(out: &mut Out, seed: u64, base: &Path, cyc: u64, steps: usize) {
     let mut rng = Rng::new(seed);
     let cc = pick_cfg(&mut rng, cyc);
     out.begin_case(&format!("seed={}", seed));
+    let t_case = std::time::Instant::now();
     let consensus = consensus_for(&cc, 24);
     let ncfg = NodeCfg { with_pool: false, ..Default::default() };
     let dir = base.join(format!("case-{}", seed));
@@ -710,6 +713,7 @@ fn run_case(out: &mut Out, seed: u64, base: &Path, cyc: u64, steps: usize) {
     let cells = genesis_cells(&consensus);
     let mut c = Case {
         refstore: RefStore::new(&consensus, &dir.join("refstore")),
+        max_ts: consensus.genesis_block().timestamp(),
         out,
         rng,
         node,
@@ -744,6 +748,9 @@ fn run_case(out: &mut Out, seed: u64, base: &Path, cyc: u64, steps: usize) {
         step(&mut c);
     }
     c.check_main_chain();
+    if c.rng.chance(1, 3) {
+        poison_tip(&mut c);
+    }
     let fp = format!("{:?}|{}", cc, c.rules_hit.len());
     if c.rules_hit.len() >= 6 {
         c.out.nontrivial(fp);
@@ -752,6 +759,9 @@ fn run_case(out: &mut Out, seed: u64, base: &Path, cyc: u64, steps: usize) {
     node.stop();
     drop(builder);
     drop(refstore);
+    if std::env::var("VERIF_TIMING").is_ok() {
+        eprintln!("case seed={} {:?}", seed, t_case.elapsed());
+    }
     let _ = std::fs::remove_dir_all(&dir);
 }
 
@@ -873,11 +883,16 @@ fn step(c: &mut Case) {
     let uncles = valid_uncles(c, new_epoch, n_unc);
     spec.uncles = uncles.iter().map(|u| u.as_uncle()).collect();
     // boundary kinds decided before building, so that the builder's store follows the accepted block
-    let bkind = c.rng.below(12);
+    let mut bkind = c.rng.below(12);
     let median = median_of_parent(c, &parent);
-    if bkind == 0 {
-        spec.timestamp = Some(median + 1);
+    // timestamps may legally go backwards (only the past median bounds them), but an epoch's last
+    // block older than the previous epoch's last block makes `get_block_epoch` subtract with
+    // overflow (C07's territory), so the generator keeps epoch tails monotone
+    let new_index = if ph.number() == 0 { 1 } else if ph.epoch().index() + 1 == ph.epoch().length() { 0 } else { ph.epoch().index() + 1 };
+    if bkind == 0 && new_index + 1 == c.cc.epoch_len {
+        bkind = 11;
     }
+    spec.timestamp = Some(if bkind == 0 { median + 1 } else { c.max_ts + 1 + salt % 3 });
     // one transaction more than the block cycle limit allows (every transaction properly proposed);
     // built first and never attached to the builder's store
     let mut over_block = None;
@@ -887,7 +902,7 @@ fn step(c: &mut Case) {
             let mut ospec = spec.clone();
             ospec.salt = s;
             ospec.txs.push(tx);
-            ospec.tweak = Tweak::Timestamp(spec.timestamp.unwrap_or(ph.timestamp() + 2));
+            ospec.tweak = Tweak::Timestamp(c.max_ts + 1 + salt % 3);
             over_block = Some(c.builder.build(&parent, &ospec));
         }
     }
@@ -938,6 +953,7 @@ fn step(c: &mut Case) {
     }
     let v = boundary_valid(c, v, &ph, bkind, median, now);
     c.tip = v.hash();
+    c.max_ts = c.max_ts.max(v.timestamp());
     c.refstore.attach(&c.consensus, &v);
     // bookkeeping
     for (tx, _) in commit_now {
@@ -1293,7 +1309,7 @@ fn side_branch(c: &mut Case) {
         2 => (Tweak::Extension, "side:chain-root"),
         _ => (Tweak::NoExtension, "side:no-extension"),
     };
-    let ts = c.builder.block(&c.tip).timestamp();
+    let ts = c.max_ts;
     let s1 = c.builder.build(&fork_parent, &BlockSpec { salt: s, tweak, timestamp: Some(ts + 1), ..Default::default() });
     c.bad.insert(s1.hash());
     let now = ts + 10;
@@ -1342,6 +1358,11 @@ fn resubmit(c: &mut Case) {
         b.as_advanced_builder().extension(ext_of_len(&b, 40)).build_unchecked()
     };
     assert_eq!(variant.hash(), b.hash());
+    if ckb_verification::BlockVerifier::new(&c.consensus).verify(&variant).is_err() {
+        // e.g. a block exactly at the size limit: the variant would fail the non-contextual stage,
+        // which is the other half of the finding (see `poison_tip`)
+        return;
+    }
     c.out.count("resubmit-variant-body");
     let raw = |node: &Node| -> (Option<Vec<u8>>, Option<Vec<u8>>) {
         let st = node.store();
@@ -1370,6 +1391,25 @@ fn resubmit(c: &mut Case) {
         if raw(&c.node) != before {
             c.out.oracle_fail("attached-body-not-restored", "re-delivering the original block did not restore the stored body");
         }
+    }
+}
+
+/// last action of a case: the tip's header with a body that fails the non-contextual stage
+fn poison_tip(c: &mut Case) {
+    let tip = c.builder.block(&c.tip).clone();
+    if tip.number() == 0 {
+        return;
+    }
+    let variant = tip.as_advanced_builder().set_transactions(vec![]).build_unchecked();
+    assert_eq!(variant.hash(), tip.hash());
+    let r = c.node.controller().blocking_process_block(Arc::new(variant));
+    c.out.count(&format!("poison-tip:{}", if r.is_ok() { "ok" } else { "err" }));
+    let st = c.status(&tip.hash());
+    if st != "valid" || c.node.tip_hash() != tip.hash() {
+        c.out.oracle_fail(
+            "attached-block-marked-invalid",
+            &format!("the attached tip {} {:#x} delivered again with its own header and an empty body: status is now `{}` (children will be refused as having an invalid parent)", tip.number(), tip.hash(), st),
+        );
     }
 }
 
